@@ -15,7 +15,10 @@ for id in $IDS; do
   CH="$P"; [ -f "seeded/$id/checks" ] && CH="$(cat seeded/$id/checks)"
   : > "seeded/$id/check_output.txt"; OK=0
   for c in $CH; do
+    # the evidence file describes runs on the unchanged tree: keep it across a run on a patched tree
+    [ -f "evidence/$c.json" ] && cp "evidence/$c.json" "/tmp/evidence.$c.keep.$$"
     OUT="$(./check $c --tier quick 2>&1)"; E=$?
+    [ -f "/tmp/evidence.$c.keep.$$" ] && mv "/tmp/evidence.$c.keep.$$" "evidence/$c.json"
     { echo "# ./check $c --tier quick   on /repo with seeded/$id/patch.diff applied"; echo "exit=$E"; echo "$OUT" | grep -A2 '^VIOLATION' | cut -c1-600 | head -30; echo "$OUT" | grep "^$c quick" ; } >> "seeded/$id/check_output.txt"
     N=$(echo "$OUT" | grep -c '^VIOLATION'); echo "$id check=$c exit=$E violations=$N"; [ "$E" = "1" ] && [ "$N" -ge 1 ] && OK=1
   done
